@@ -97,8 +97,8 @@ PROPS = {
         "design_ref": "§3, §7 C15",
         "technique": "deterministic simulation: real compio-tls client and server (rustls and native-tls, all four pairings) as two simulated tasks over compio-io's poll-style adapter over a fault-injecting duplex channel (fragmentation, Pending, back-pressure, hold-until-flush); payload equality, clean-close, deadlock and step-bound oracles; replay by choice sequence (fixed RSA test key so record sizes are constant)",
         "tiers": {
-            "quick": {"runs": 40_000, "time_limit_s": 45},
-            "thorough": {"runs": 2_500_000, "time_limit_s": 1500},
+            "quick": {"runs": 160_000, "time_limit_s": 60},
+            "thorough": {"runs": 8_000_000, "time_limit_s": 1500},
         },
         "rule": S_RULE,
         "real": ["compio-tls (adapter, stream, maybe, compat/common, compat/native)", "compio-io compat::AsyncStream / SyncStream", "rustls + futures-rustls", "native-tls + OpenSSL (system library)", "ring"],
